@@ -72,6 +72,36 @@ Theorem c16_create :
     normalize_portable true path target = inr target.
 Proof. exact (create_allowed_portable true). Qed.
 
+(* Transition, creation of a whole entry tree (a new directory with nested
+   directories and links, any shape, any depth): a link inside the tree is
+   created only if its target is accepted AT ITS OWN PATH (whose depth includes
+   the directory levels of the tree), so it never leaves the root either; and
+   every link of the tree is either created or has a problem recorded. *)
+Theorem c16_create_tree :
+  forall (path : str) (t : ctree) (p tg : str),
+    In (p, tg) (created_links true SLPortable path t) ->
+    In (p, tg) (links_of path t)
+    /\ normalize_portable true p tg = inr tg
+    /\ forall q, is_prefix q (split_on c_slash tg) -> 0 <= resolve_depth (path_depth p) q.
+Proof. exact created_tree_links. Qed.
+
+Theorem c16_create_tree_total :
+  forall (fixed : bool) (mode : sl_mode) (path : str) (t : ctree) (p tg : str),
+    In (p, tg) (links_of path t) ->
+    In (p, tg) (created_links fixed mode path t) \/ In p (link_problems fixed mode path t).
+Proof. exact tree_link_created_or_problem. Qed.
+
+Example c16_create_tree_nontrivial :
+  created_links true SLPortable (B "d")
+    (CDir [(B "ok", CLink (B "../x")); (B "bad", CLink (B "../../secret"));
+           (B "s", CDir [(B "deep", CLink (B "../../y")); (B "abs", CLink (B "/etc/passwd"))])])
+  = [(B "d/ok", B "../x"); (B "d/s/deep", B "../../y")]
+  /\ link_problems true SLPortable (B "d")
+       (CDir [(B "ok", CLink (B "../x")); (B "bad", CLink (B "../../secret"));
+              (B "s", CDir [(B "deep", CLink (B "../../y")); (B "abs", CLink (B "/etc/passwd"))])])
+     = [B "d/bad"; B "d/s/abs"].
+Proof. exact tree_example. Qed.
+
 Theorem c16_create_ignore :
   forall (fixed : bool) (path target : str),
     create_allowed fixed SLIgnore path target = false.
@@ -145,6 +175,8 @@ Print Assumptions c16_inside_location.
 Print Assumptions c16_rejects.
 Print Assumptions c16_scan.
 Print Assumptions c16_create.
+Print Assumptions c16_create_tree.
+Print Assumptions c16_create_tree_total.
 Print Assumptions c16_create_ignore.
 Print Assumptions c16_check_sound.
 Print Assumptions c16_check_complete.
